@@ -157,9 +157,17 @@ structure VState where
   path : Option Bytes := none
   scheme : Option Bytes := none
   seen : List Bytes := []
+  /-- `declared_content_length` -/
+  dcl : Option Nat := none
   /-- `stream.expected_content_length` -/
   ecl : Option Nat := none
   deriving Repr, DecidableEq
+
+/-- `declared_content_length is not None and declared_content_length != content_length` -/
+def clConflict (dcl : Option Nat) (n : Nat) : Bool :=
+  match dcl with
+  | some d => d != n
+  | none => false
 
 /-- one iteration of `for key, value in headers` -/
 def vstep (allowed : List Bytes) (hasStream : Bool) (s : VState) (h : Header) : Outcome VState := do
@@ -179,7 +187,10 @@ def vstep (allowed : List Bytes) (hasStream : Bool) (s : VState) (h : Header) : 
     let s := { s with afterPseudo := true }
     if h.1 = bContentLength then do
       let n ← parseContentLength h.2
-      .ok (if hasStream then { s with ecl := some n } else s)
+      if clConflict s.dcl n then .error msgErr       -- "content-length is included twice"
+      else
+        let s := { s with dcl := some n }
+        .ok (if hasStream then { s with ecl := some n } else s)
     else if h.1 = bTransferEncoding ∧ h.2 ≠ bTrailers then .error msgErr
     else .ok s
 
@@ -236,8 +247,7 @@ def validateOn (kind : Kind) (ecl0 : Option Nat) (hs : Headers) : Outcome (Optio
 def validate (kind : Kind) (hs : Headers) : Outcome (Option Nat) := validateOn kind none hs
 
 /-- the content-length a header block declares to `validate_headers`: the
-    value of its last `content-length` header (each one overwrites
-    `stream.expected_content_length`) -/
+    value of its last `content-length` header (an accepted block has them all equal) -/
 def declaredCL : Headers → Option Nat
   | [] => none
   | h :: t =>
